@@ -20,6 +20,7 @@ type Report struct {
 	loadS   float64
 	wallS   float64
 	cfg     SolverCfg
+	corpus  *corpusResult
 }
 
 func buildReport(p *Program, o checkOpts, results []*FuncResult, obs, vac []*Obligation, seed int, loadS, wallS float64, cfg SolverCfg) *Report {
@@ -359,6 +360,7 @@ func (r *Report) writeEvidence(discharged int, byBackend map[string]int, solverT
 			"tool_errors":                                  toolErrs,
 			"load_s":                                       r.loadS,
 			"per_query_timeout_s":                          r.cfg.TimeoutS,
+			"must_fail_corpus":                             r.corpus,
 		},
 		"assumptions": assumptions,
 		"wall_s":      r.wallS,
